@@ -101,16 +101,32 @@ def level_recipe(triple, rng, nmods=None, module_override=None, ovh_override=Non
             mods.append(m)
         if any(m is None for m in mods):
             continue
+        # curated inserts: a reference list and a handful of short cited features (some of them fall inside the insert, so the
+        # product carries citations and a reference list of its own into the next level)
+        cited = rng.random() < 0.4
         # the inserts of a level are often products of the level below, which all carry the default id unless one was asked for
         same_id = rng.choice(["assembly", "<unknown id>"]) if (len(mods) >= 2 and rng.random() < 0.35) else None
         return {"fn": "level", "triple": list(triple), "enz": classes.enz_spec(this), "nenz": classes.enz_spec(nxt),
                 "vcls": vspec, "mcls": [mspec] * len(mods), "ncls": nspec,
                 "vector": {"id": "vec", "seq": gen.rotate(vec, rng.randrange(len(vec)))},
                 "modules": [dict(module_override) if (isinstance(module_override, dict) and i == 0) else
-                            {"id": ("ins%d" % (i + 1)) if not same_id else same_id, "seq": gen.rotate(m, rng.randrange(len(m)))} for i, m in enumerate(mods)],
+                            cite_some({"id": ("ins%d" % (i + 1)) if not same_id else same_id, "seq": gen.rotate(m, rng.randrange(len(m)))}, rng, cited)
+                            for i, m in enumerate(mods)],
                 # (a product is often given the name of the part it was built around)
                 "id": ("lvl%d" % rng.randrange(100000)) if rng.random() < 0.75 else ("ins1" if not same_id else same_id), "name": "lvl"}
     return None
+
+
+def cite_some(spec, rng, on):
+    if on:
+        n = len(spec["seq"])
+        spec["refs"] = ["paper-%s-1" % spec["id"], "paper-%s-2" % spec["id"]]
+        spec["feats"] = []
+        for j in range(8):
+            a = rng.randrange(n - 2)
+            spec["feats"].append({"type": "misc_feature", "strand": 1, "parts": [[a, a + rng.randint(1, 2)]],
+                                  "quals": {"label": ["c%d" % j]}, "cites": [rng.randint(1, 2)]})
+    return spec
 
 
 def feats_from_out(out):
